@@ -112,6 +112,25 @@ Proof.
   apply String.eqb_eq in E. exfalso. apply Hn. rewrite E. apply in_map. exact Hin.
 Qed.
 
+(* ------------------------------------------------------------------------------------------ NoDup and append *)
+Lemma NoDup_app_l {A} (a b : list A) : NoDup (a ++ b) -> NoDup a.
+Proof. induction a as [|x a IH]; cbn [app]; intros H; [constructor|]. inversion H; subst. constructor; [intros Hin; apply H2; apply in_or_app; left; exact Hin|apply IH; assumption]. Qed.
+Lemma NoDup_app_r {A} (a b : list A) : NoDup (a ++ b) -> NoDup b.
+Proof. induction a as [|x a IH]; cbn [app]; intros H; [exact H|]. inversion H; subst. apply IH. assumption. Qed.
+Lemma NoDup_app_disj {A} (a b : list A) x : NoDup (a ++ b) -> In x a -> In x b -> False.
+Proof.
+  induction a as [|y a IH]; cbn [app]; intros H Ha Hb; [destruct Ha|]. inversion H; subst.
+  destruct Ha as [->|Ha]; [apply H2; apply in_or_app; right; exact Hb|]. apply IH; assumption.
+Qed.
+
+Lemma NoDup_app_intro {A} (a b : list A) : NoDup a -> NoDup b -> (forall x, In x a -> In x b -> False) -> NoDup (a ++ b).
+Proof.
+  induction a as [|x a IH]; intros Ha Hb H; cbn [app]; [exact Hb|]. inversion Ha; subst. constructor.
+  - intros Hin. apply in_app_or in Hin. destruct Hin as [Hin|Hin]; [contradiction|]. apply (H x); [left; reflexivity|exact Hin].
+  - apply IH; try assumption. intros y Hy. apply H. right. exact Hy.
+Qed.
+
+
 (* ------------------------------------------------------------------------------------------ wf_design, taken apart *)
 Lemma wf_mods_nth d : forall ms k0 j m, wf_mods d k0 ms = Ok tt -> nth_error ms j = Some m -> wf_module d (k0 + j) m = Ok tt.
 Proof.
